@@ -144,7 +144,8 @@ def float_values(allow_inf=True):
     base = st.one_of(st.floats(allow_nan=False, allow_infinity=allow_inf),
                      st.sampled_from([f for f in FLOAT_SPECIALS if allow_inf or np.isfinite(f)]),
                      st.floats(allow_nan=False, allow_infinity=False, allow_subnormal=True, min_value=-1e-300,
-                               max_value=1e-300))
+                               max_value=1e-300),
+                     *([st.sampled_from([float("inf"), float("-inf")])] if allow_inf else []))
     return base.map(enc_float)
 
 
@@ -437,7 +438,10 @@ def roundtrip_program_strategy(tier: str):
         "ws": ws_spec_strategy(),
         "geoh5": st.sampled_from(["path", "path", "pathobj", "open_rw", "open_rw", "open_r"]),
         "top": toplevel_strategy(),
-        "forms": st.lists(form_strategy(), min_size=1, max_size=max_forms),
+        "forms": st.one_of(st.lists(form_strategy(), min_size=1, max_size=2),
+                           st.lists(form_strategy(), min_size=3, max_size=max_forms),
+                           st.lists(form_strategy(), min_size=4, max_size=max_forms),
+                           st.lists(form_strategy(), min_size=6, max_size=max_forms)),
         "ident": st.lists(st.fixed_dictionaries({"ref": st.integers(0, 50), "shape": st.sampled_from(
             ["one", "one", "list", "nested", "plain"]), "kind": st.sampled_from(["obj", "data", "pg", "group", "dhg"])}),
             min_size=1, max_size=5),
@@ -453,6 +457,7 @@ class Built:
         self.ui_json: dict = {}
         self.meta: dict = {}   # name -> {kind, expected (snap|None), lookalike, unspecified, vclass, entity}
         self.excluded = 0      # triggers of known findings neutralised
+        self.known: dict = {}  # name -> tag of the known finding whose trigger is present (allow_known)
 
 
 def pick_entity(cat, kind, ref, obj_index=None):
@@ -723,9 +728,12 @@ def materialize(program: dict, cat: dict, ws, geoh5_value) -> Built:
                                                   multiselect=bool(spec.get("multiselect", True)))
             # KNOWN FINDING guard (C14/read-raises/.../dhdata-optional-none): the template stores
             # "optional": None, which is written as "" and refused by the reader.
-            if form.get("optional", 0) is None and not allow_known:
-                del form["optional"]
-                built.excluded += 1
+            if form.get("optional", 0) is None:
+                if allow_known:
+                    built.known[name] = "dhdata-optional-none"
+                else:
+                    del form["optional"]
+                    built.excluded += 1
             expected = snap(value)
         elif kind == "range":
             uid, _cls = pick_entity(cat, "data", ref, parent_obj)
@@ -796,10 +804,7 @@ def apply_switches(specs, names, forms, built, allow_known):
         if sw.get("dtype") is not None:
             forms[names[i]]["dependencyType"] = sw["dtype"]
     # `enabled` as Geoscience ANALYST exports it: false for everything greyed out from above
-    for i, spec in enumerate(specs):
-        sw = spec.get("sw") or {}
-        form = forms[names[i]]
-        meta = built.meta[names[i]]
+    def greyed_by(form):
         group_off = False
         if "group" in form and form["group"] in owners:
             owner = forms[owners[form["group"]]]
@@ -811,10 +816,46 @@ def apply_switches(specs, names, forms, built, allow_known):
             state = driver.get("enabled", True) if driver.get("optional", False) else driver.get("value")
             active = bool(state) if form.get("dependencyType", "enabled") == "enabled" else not bool(state)
             dep_off = not active
-        greyed = group_off or dep_off
-        if greyed and sw.get("consistent", True):
-            form["enabled"] = False
-        elif greyed and form.get("enabled", True) is not False:
+        return group_off or dep_off
+
+    for _ in range(n + 2):  # fixpoint: greying propagates along dependencies and groups
+        changed = False
+        for i, spec in enumerate(specs):
+            sw = spec.get("sw") or {}
+            form = forms[names[i]]
+            if greyed_by(form) and sw.get("consistent", True) and form.get("enabled", True) is not False:
+                form["enabled"] = False
+                changed = True
+        if not changed:
+            break
+
+    # KNOWN FINDING guard (group-owner-propagation): `set_enabled` copies the `enabled` member of the form
+    # that carries `groupOptional` (whatever its value) onto every member of the group.  It shows when the
+    # owner has an `enabled` member that differs from a member's and the documentation does not ask for it
+    # (owner enabled, or no group checkbox at all).  Neutralised by moving that member out of the group.
+    for group, owner_name in owners.items():
+        owner = forms[owner_name]
+        if "enabled" not in owner or owner["enabled"] is None:
+            continue
+        for i, name in enumerate(names):
+            form = forms[name]
+            if form is owner or form.get("group") != group:
+                continue
+            if form.get("enabled", True) != owner["enabled"] and (
+                    owner["enabled"] is True or owner.get("groupOptional") is not True):
+                if allow_known:
+                    for member in names:
+                        if forms[member].get("group") == group:
+                            built.known[member] = "group-owner-propagation"
+                else:
+                    del form["group"]
+                    built.excluded += 1
+
+    for i, spec in enumerate(specs):
+        form = forms[names[i]]
+        meta = built.meta[names[i]]
+        greyed = greyed_by(form)
+        if greyed and form.get("enabled", True) is not False:
             meta["unspecified"] = True  # enabled although its group / dependency disables it
         own_checkbox = form.get("optional", False) is True or form.get("groupOptional") is True
         if form.get("enabled", True) is False and not own_checkbox and not greyed:
@@ -890,6 +931,7 @@ def run_roundtrip(program: dict, res, pid: str = "C14"):
             data0 = ifile.data
         except Exception as exc:  # rejected at construction: nothing to round-trip
             res.label("construct-rejected:" + type(exc).__name__)
+            res.info["construct_error"] = f"{where_raised(exc)}: {str(exc)[:200]}"
             clean = not any(m["lookalike"] or m["unspecified"] for m in built.meta.values()
                             if m.get("kind") != "plain") and not any(
                 (s.get("sw") or {}).get("raw") for s in program.get("forms") or [])
@@ -930,8 +972,8 @@ def run_roundtrip(program: dict, res, pid: str = "C14"):
             data1 = back.data
         except Exception as exc:
             kinds = sorted({built.meta[n]["kind"] for n in form_names})
-            culprit = blame_form(exc, built)
-            res.fail(f"{pid}/read-raises/{where_raised(exc)}/{culprit}",
+            culprit, culprit_name = blame_form(exc, built)
+            res.fail(tagged(built, culprit_name, f"{pid}/read-raises/{where_raised(exc)}/{culprit}"),
                      f"read_ui_json of the file just written raised {type(exc).__name__}: {str(exc)[:300]} "
                      f"(forms: {kinds})")
             return stats
@@ -952,30 +994,39 @@ def run_roundtrip(program: dict, res, pid: str = "C14"):
             after = snap1.get(name)
             kind = meta["kind"]
             if after != before:
-                res.fail(f"{pid}/data-differs/{kind}/{snap_kind(before)}->{snap_kind(after) if after else 'missing'}"
-                         f"/{switch_class(built.ui_json.get(name))}",
+                res.fail(tagged(built, name, f"{pid}/data-differs/{kind}/{snap_kind(before)}->"
+                                             f"{snap_kind(after) if after else 'missing'}"
+                                             f"/{switch_class(built.ui_json.get(name))}"),
                          f"parameter {name!r} ({meta['vclass']}): data before write {before} != after read {after}")
             if isinstance(built.ui_json.get(name), dict):
                 if enabled1.get(name) != enabled_mem.get(name):
-                    res.fail(f"{pid}/enabled-differs/{kind}/{enabled_mem.get(name)}->{enabled1.get(name)}"
-                             f"/{switch_class(built.ui_json.get(name))}",
+                    res.fail(tagged(built, name, f"{pid}/enabled-differs/{enabled_mem.get(name)}->"
+                                                 f"{enabled1.get(name)}/{switch_class(built.ui_json.get(name))}"),
                              f"parameter {name!r}: enabled in memory after write {enabled_mem.get(name)} != "
                              f"after read {enabled1.get(name)}")
                 if enabled1.get(name) is False and after != ["none"]:
-                    res.fail(f"{pid}/disabled-not-none/{kind}/read", f"parameter {name!r} disabled after read but "
+                    res.fail(tagged(built, name, f"{pid}/disabled-not-none/{kind}/read"), f"parameter {name!r} disabled after read but "
                                                                      f"data is {after}")
                 if meta.get("expected_enabled") is False and before != ["none"]:
-                    res.fail(f"{pid}/disabled-not-none/{kind}/constructed/{switch_class(built.ui_json.get(name))}",
+                    res.fail(tagged(built, name, f"{pid}/disabled-not-none/{kind}/constructed/"
+                                                 f"{switch_class(built.ui_json.get(name))}"),
                              f"parameter {name!r} generated disabled but data is {before}")
             if not meta["lookalike"] and meta.get("expected") is not None:
                 if before != meta["expected"]:
-                    res.fail(f"{pid}/data-vs-generated/{kind}/{snap_kind(meta['expected'])}->{snap_kind(before)}"
-                             f"/{switch_class(built.ui_json.get(name))}",
+                    res.fail(tagged(built, name, f"{pid}/data-vs-generated/{kind}/{snap_kind(meta['expected'])}->"
+                                                 f"{snap_kind(before)}/{switch_class(built.ui_json.get(name))}"),
                              f"parameter {name!r} ({meta['vclass']}): generated {meta['expected']} but data is "
                              f"{before}")
         return stats
     finally:
         env.close_quietly(opened, ws, *extra_open)
+
+
+def tagged(built, name, sig: str) -> str:
+    """Signature of a failing clause on parameter `name`; marks cases that contain the (deliberately
+    allowed) trigger of a known finding so that those signatures do not hide anything else."""
+    tag = built.known.get(name)
+    return f"{sig}/known:{tag}" if tag else sig
 
 
 def switch_class(form) -> str:
@@ -992,11 +1043,12 @@ def switch_class(form) -> str:
 
 
 def blame_form(exc, built) -> str:
-    text = str(exc)
-    for name, meta in built.meta.items():
-        if f"'{name}'" in text:
-            return meta["kind"]
-    return "?"
+    import re
+
+    for token in re.findall(r"\b(p\d+|pobj|extra\d+)\b", str(exc)):
+        if token in built.meta:
+            return built.meta[token]["kind"], token
+    return "?", None
 
 
 def check_promote_demote(program, cat, ifile, res, pid):
